@@ -15,6 +15,10 @@ def handlers : List (String × Handler) := [
     match assemble fmt body.toList hdr cart with
     | some t => pure (obj [("text", Json.str (String.ofList t))])
     | none => pure (obj [("raise", Json.str "RuntimeError")])),
+  ("reader_lines", fun j => do
+    let s ← getStr j "s"
+    let skip ← getStr j "skip"
+    pure (obj [("lines", toJson ((readerLines skip.toList s.toList).map String.ofList))])),
   ("splitlines", fun j => do
     let s ← getStr j "s"
     pure (obj [("lines", toJson ((splitlinesKeep s.toList).map String.ofList))]))
